@@ -1,9 +1,12 @@
 /-
-Executable oracles (DESIGN.md 5.4), core Lean only. Correctness theorems live in PcProofs/Oracle.lean.
+Executable oracles (DESIGN.md 5.4), core Lean only. Correctness theorems live in PcProofs/Oracle.lean
+(trial division, sieve, counting) and PcProofs/OracleWindow.lean (segmented window sieve).
 These are independent of primecount and primesieve: trial division and a plain sieve of Eratosthenes.
 -/
 import PcModel.Basic
 namespace Pc
+
+/-! ## trial division -/
 
 /-- `true` iff no `d` with `d0 ≤ d`, `d * d ≤ n` divides `n` (fuel-bounded scan) -/
 def noDivisorFrom (n : Nat) : Nat → Nat → Bool
@@ -19,45 +22,121 @@ def primesUpToTD (n : Nat) : List Nat := (List.range (n + 1)).filter isPrimeTD
 /-- π(n) by trial division -/
 def piTD (n : Nat) : Nat := (primesUpToTD n).length
 
-/-- cross off the multiples `j, j+p, ...` below `size` (fuel-bounded) -/
+/-- number of primes in `(a, b]` by trial division -/
+def primesInTD (a b : Nat) : Nat := ((List.range (b - a)).filter (fun i => isPrimeTD (a + 1 + i))).length
+
+/-! ## sieve of Eratosthenes -/
+
+/-- cross off the indices `j, j+p, ...` below `size` (fuel-bounded) -/
 def crossOff (p : Nat) : Nat → Nat → Array Bool → Array Bool
   | 0, _, a => a
   | fuel + 1, j, a => if j < a.size then crossOff p fuel (j + p) (a.set! j false) else a
 
+/-- main loop of the sieve: for `p = p0, p0+1, ...` while `p * p ≤ n`, cross off `p*p, p*p+p, ...`
+    when `p` is still marked -/
+def sieveLoop (n : Nat) : Nat → Nat → Array Bool → Array Bool
+  | 0, _, a => a
+  | fuel + 1, p, a =>
+    if p * p > n then a
+    else if a.getD p false then sieveLoop n fuel (p + 1) (crossOff p (n + 1) (p * p) a)
+    else sieveLoop n fuel (p + 1) a
+
+/-- initial state of the sieve: everything marked except 0 and 1 -/
+def sieveInit (n : Nat) : Array Bool := (Array.replicate (n + 1) true).set! 0 false |>.set! 1 false
+
 /-- sieve of Eratosthenes: `(sieveArr n)[i] = true` iff `i` is prime, for `i ≤ n` -/
-def sieveArr (n : Nat) : Array Bool :=
-  let a0 : Array Bool := (Array.replicate (n + 1) true).set! 0 false |>.set! 1 false
-  let rec go : Nat → Nat → Array Bool → Array Bool
-    | 0, _, a => a
-    | fuel + 1, p, a =>
-      if p * p > n then a
-      else if a.getD p false then go fuel (p + 1) (crossOff p (n + 1) (p * p) a)
-      else go fuel (p + 1) a
-  go (n + 1) 2 a0
+def sieveArr (n : Nat) : Array Bool := sieveLoop n (n + 1) 2 (sieveInit n)
+
+/-- `acc` + number of `true` entries of `s` at the indices `i, i+1, ..., i+fuel-1` -/
+def countFrom (s : Array Bool) : Nat → Nat → Nat → Nat
+  | 0, _, acc => acc
+  | fuel + 1, i, acc => countFrom s fuel (i + 1) (if s.getD i false then acc + 1 else acc)
+
+/-- running prefix counts of `s`, pushed onto `acc` -/
+def piTableLoop (s : Array Bool) : Nat → Nat → Nat → Array Nat → Array Nat
+  | 0, _, _, acc => acc
+  | fuel + 1, i, c, acc =>
+    let c' := if s.getD i false then c + 1 else c
+    piTableLoop s fuel (i + 1) c' (acc.push c')
+
+/-- prefix counts of a sieve: `(piTableOf s n)[i]` = number of marked indices `≤ i`, for `i ≤ n` -/
+def piTableOf (s : Array Bool) (n : Nat) : Array Nat := piTableLoop s (n + 1) 0 0 (Array.mkEmpty (n + 1))
 
 /-- prefix counts: `(piTableArr n)[i] = π(i)` for `i ≤ n` -/
-def piTableArr (n : Nat) : Array Nat :=
-  let s := sieveArr n
-  let rec go : Nat → Nat → Nat → Array Nat → Array Nat
-    | 0, _, _, acc => acc
-    | fuel + 1, i, c, acc =>
-      let c' := if s.getD i false then c + 1 else c
-      go fuel (i + 1) c' (acc.push c')
-  go (n + 1) 0 0 (Array.mkEmpty (n + 1))
+def piTableArr (n : Nat) : Array Nat := piTableOf (sieveArr n) n
 
-/-- π(n) with the sieve -/
-def piSieve (n : Nat) : Nat := (piTableArr n).getD n 0
+/-- π(n) with the sieve (one counting pass, no table) -/
+def piSieve (n : Nat) : Nat := countFrom (sieveArr n) (n + 1) 0 0
+
+/-- the marked indices `≤ n` of a sieve, increasing -/
+def primesOfSieve (s : Array Bool) (n : Nat) : List Nat :=
+  (List.range (n + 1)).filter (fun i => s.getD i false)
 
 /-- primes `≤ n` from the sieve, increasing -/
-def primesUpTo (n : Nat) : List Nat :=
-  let s := sieveArr n
-  (List.range (n + 1)).filter (fun i => s.getD i false)
+def primesUpTo (n : Nat) : List Nat := primesOfSieve (sieveArr n) n
+
+/-! ## segmented window sieve: primes in `(a, b]` -/
+
+/-- the smallest multiple of `d` that is `> a` and `≥ d * d` (for `d ≥ 1`) -/
+def firstMultiple (d a : Nat) : Nat := max (d * d) ((a / d + 1) * d)
+
+/-- initial window over `(a, b]`: index `i` stands for the number `a + 1 + i`; all marked except the number 1 -/
+def windowInit (a b : Nat) : Array Bool :=
+  let w := Array.replicate (b - a) true
+  if a == 0 then w.set! 0 false else w
+
+/-- for `d = d0, d0+1, ...` while `d * d ≤ b`: when `isBase d`, cross off the multiples of `d` that are
+    `≥ d * d` inside the window -/
+def windowLoop (isBase : Nat → Bool) (a b : Nat) : Nat → Nat → Array Bool → Array Bool
+  | 0, _, w => w
+  | fuel + 1, d, w =>
+    if d * d > b then w
+    else if isBase d then
+      windowLoop isBase a b fuel (d + 1) (crossOff d (b - a) (firstMultiple d a - (a + 1)) w)
+    else windowLoop isBase a b fuel (d + 1) w
+
+/-- the sieved window: entry `i` is `true` iff `a + 1 + i` is prime — provided `isBase` holds for every
+    prime `p` with `p * p ≤ b` (it may hold for other numbers as well: crossing off the multiples `≥ d*d`
+    of any `d ≥ 2` only removes composites) -/
+def windowSieveWith (isBase : Nat → Bool) (a b : Nat) : Array Bool :=
+  windowLoop isBase a b (b + 1) 2 (windowInit a b)
+
+/-- number of primes in `(a, b]` relative to a base predicate -/
+def windowPrimesWith (isBase : Nat → Bool) (a b : Nat) : Nat :=
+  countFrom (windowSieveWith isBase a b) (b - a) 0 0
+
+/-- the primes in `(a, b]`, increasing, relative to a base predicate -/
+def windowListWith (isBase : Nat → Bool) (a b : Nat) : List Nat :=
+  let w := windowSieveWith isBase a b
+  ((List.range (b - a)).filter (fun i => w.getD i false)).map (fun i => a + 1 + i)
+
+/-- `π(a + d) - π(a)` for every `d` of the list, from ONE sieved window `(a, a + max d]` -/
+def windowDeltasWith (isBase : Nat → Bool) (a : Nat) (ds : List Nat) : List Nat :=
+  let l := windowListWith isBase a (a + ds.foldl max 0)
+  ds.map (fun d => (l.filter (fun q => q ≤ a + d)).length)
+
+/-- base predicate read off a sieve table -/
+def baseOfSieve (s : Array Bool) : Nat → Bool := fun d => s.getD d false
+
+/-- base predicate without any table: 2, 3, 5 and the numbers coprime to 30 (all primes are among them).
+    Costs `√b` cheap steps per window instead of a base sieve of `√b` entries. -/
+def wheelBase (d : Nat) : Bool := d < 7 || (d % 2 != 0 && d % 3 != 0 && d % 5 != 0)
+
+/-- number of primes in `(a, b]`: segmented sieve with the base primes `≤ √b` taken from `sieveArr` -/
+def windowPrimes (a b : Nat) : Nat :=
+  let s := sieveArr (Nat.sqrt b)
+  windowPrimesWith (baseOfSieve s) a b
+
+/-- number of primes in `(a, b]` with the table-free wheel base -/
+def windowPrimesWheel (a b : Nat) : Nat := windowPrimesWith wheelBase a b
+
+/-! ## Legendre sum by definition -/
 
 /-- the Legendre sum by its definition: numbers in `[1, x]` divisible by none of the primes in `ps` -/
 def phiNaive (x : Nat) (ps : List Nat) : Nat :=
   ((List.range (x + 1)).filter (fun n => 1 ≤ n && ps.all (fun q => n % q != 0))).length
 
-/-- number of primes in `(a, b]` by trial division -/
-def primesInTD (a b : Nat) : Nat := ((List.range (b - a)).filter (fun i => isPrimeTD (a + 1 + i))).length
+/-- the first `a` primes, taken from a sieve up to `n` (all of them when `a ≥ π(n)`) -/
+def firstPrimes (a n : Nat) : List Nat := (primesUpTo n).take a
 
 end Pc
